@@ -64,7 +64,7 @@ pub const PATHS: &[&str] = &[
     "/bkt//lead",
     "/bkt/50%25cashback%25ff",
 ];
-pub const QUERIES: &[&str] = &["", "a=1", "a=", "a", "b=2&a=1", "a=2&a=1", "a=1&a=2", "a=%20+%2F", "k=%C3%A9", "A=1&a=2", "k=%2541&%2520=v",
+pub const QUERIES: &[&str] = &["", "a=1", "a=", "a", "b=2&a=1", "a=2&a=1", "a=1&a=2", "a=1&a=1", "a=%20+%2F", "k=%C3%A9", "A=1&a=2", "k=%2541&%2520=v",
     // names whose order changes when they are escaped (the canonical form sorts the *escaped* names): ':' sorts after '1',
     // "%3A" before it; 'é' sorts after 'e', "%C3%A9" before it - in both wire orders
     "x-a1=1&x-a%3Ab=2", "x-a%3Ab=2&x-a1=1", "name=1&nam%C3%A9=2", "nam%C3%A9=2&name=1"];
@@ -242,6 +242,8 @@ enum Mutn {
     QueryValue(usize),
     QueryName(usize),
     QueryRemove(usize),
+    /// the pair sent once more, right after itself: a pair is added to the signed query (a multiset, not a set)
+    QueryPairTwice(usize),
     QueryAdd,
     PathByte(usize),
     Method,
@@ -285,6 +287,7 @@ impl Mutn {
             Mutn::QueryValue(_) => "query-value",
             Mutn::QueryName(_) => "query-name",
             Mutn::QueryRemove(_) => "query-removed",
+            Mutn::QueryPairTwice(_) => "query-pair-sent-twice",
             Mutn::QueryAdd => "query-added",
             Mutn::PathByte(_) => "path-byte",
             Mutn::Method => "method",
@@ -358,6 +361,7 @@ fn mutations(b: &Built, base: &Base) -> Vec<Mutn> {
         m.push(Mutn::QueryValue(i));
         m.push(Mutn::QueryName(i));
         m.push(Mutn::QueryRemove(i));
+        m.push(Mutn::QueryPairTwice(i));
     }
     m.push(Mutn::QueryAdd);
     for i in 5..b.req.path().len() {
@@ -479,6 +483,15 @@ fn apply(mu: &Mutn, r: &mut Req, body: &mut Vec<u8>, keys: &mut Vec<(String, Str
                 return false;
             }
             p.remove(*i);
+            set_query(r, &p);
+        }
+        Mutn::QueryPairTwice(i) => {
+            let mut p = query_parts(r);
+            if p[*i] == "uploads" {
+                return false;
+            }
+            let d = p[*i].clone();
+            p.insert(*i, d);
             set_query(r, &p);
         }
         Mutn::QueryAdd => {
@@ -784,7 +797,7 @@ pub fn run(ctx: &Ctx) -> (Acc, Report) {
     }
     let rep = Report {
         level: "exploration",
-        rule: format!("{n_bases} honestly signed base requests (method x {} paths (incl. keys with empty segments - a path is never normalised) x 15 query multisets (incl. names whose order changes when they are escaped) x 12 signed-header shapes (incl. runs of 3-5 blanks and tabs) x payload/mode x HTTP/1.1 | HTTP/2 | HTTP/2 with a port in the authority), each with every applicable single-component mutation (each signed header value/name/removal, each query pair, each path byte - a slash is doubled -, method, each body byte, each signature digit, each scope field, dates, provider secret, signed-header list) and 6 canonical-equivalent rewrites; oracle = reference verifier on the same bytes. Distinct by (base, mutation) id; every evaluated case is non-trivial (it reaches signature comparison or a parse refusal).", PATHS.len()),
+        rule: format!("{n_bases} honestly signed base requests (method x {} paths (incl. keys with empty segments - a path is never normalised) x {} query multisets (incl. a pair sent twice, names whose order changes when they are escaped) x 12 signed-header shapes (incl. runs of 3-5 blanks and tabs) x payload/mode x HTTP/1.1 | HTTP/2 | HTTP/2 with a port in the authority), each with every applicable single-component mutation (each signed header value/name/removal, each query pair - changed, removed, sent twice -, each path byte - a slash is doubled -, method, each body byte, each signature digit, each scope field, dates, provider secret, signed-header list) and 6 canonical-equivalent rewrites; oracle = reference verifier on the same bytes. Distinct by (base, mutation) id; every evaluated case is non-trivial (it reaches signature comparison or a parse refusal).", PATHS.len(), QUERIES.len()),
         exhaustive: true,
         extra: json!({"histories": hist_n, "history_requests_executed": hist_steps, "history_rule": "all sequences of length 1..3 over 8 requests of this property's scheme(s) (two identities x honest / signed with the other identity's secret x two scopes) plus every pair led by a request of another scheme, on one service instance, single-threaded, fixed order; each verdict = the reference verdict of that request alone", "base_requests": n_bases, "secret_length_cases": n_secret_lengths, "secret_length_rule": "provider secrets of 1, 2, 39-41, 59-65, 123-129, 255-257, 1000 and 5000 bytes: an honest request is accepted, and refused when the stored secret differs in its last character", "quick_tier_note": "quick keeps grid points where at most one of (path, query, header-shape, http2) is beyond its first two values; thorough is the full product"}),
         assumptions: vec![
